@@ -139,6 +139,22 @@ func (cfg *Config) paramExp(pe *syntax.ParamExp) (string, error) {
 			str = join(elems)
 		}
 	}
+	if callVarInd && index != nil && name != "LINENO" && (vr.Kind == Indexed || vr.Kind == String) {
+		switch nodeLit(index) {
+		case "@", "*":
+		default:
+			// The subscript may assign to the variable itself, as in
+			// ${a[a[0]=1]}, so evaluate it before reading the value.
+			n, err := Arithm(cfg, index)
+			if err != nil {
+				return "", err
+			}
+			index = &syntax.Word{Parts: []syntax.WordPart{
+				&syntax.Lit{Value: strconv.Itoa(n)},
+			}}
+			vr = cfg.Env.Get(name)
+		}
+	}
 	if callVarInd {
 		var err error
 		str, set, err = cfg.varInd(vr, index)
